@@ -50,6 +50,18 @@ MUTATIONS = {
         ["C05", "C01"],
         [("flox/core.py", "mask = ~np.isin(flat, expect) | isnull(flat) | (idx == len(expect))", "mask = isnull(flat) | (idx == len(expect))")],
     ),
+    "scan_forget_left_state": (
+        ["C10", "C03"],
+        [("flox/aggregations.py", "lasts = concatenate([left, result]).last()", "lasts = result.last()")],
+    ),
+    "ffill_no_group_reset": (
+        ["C10"],
+        [("flox/aggregate_flox.py", "    mask[..., np.asarray(group_starts)] = False\n", "    mask[..., 0] = False\n")],
+    ),
+    "bfill_no_final_reverse": (
+        ["C10"],
+        [("flox/aggregations.py", "    preprocess=reverse,\n    finalize=reverse,\n", "    preprocess=reverse,\n")],
+    ),
     "nanmin_combine_min": (
         ["C04"],
         [("flox/aggregations.py", '    chunk="nanmin",\n    combine="nanmin",', '    chunk="nanmin",\n    combine="min",')],
